@@ -57,6 +57,13 @@ def kani_harnesses(prop, tier):
         hs.append(dict(RLE, name="single_intra", nbytes=5, timeout=900, what="same with an INTRADC code (all valid codes): DC == Table 15 level, event lands one position later"))
         hs.append(dict(RLE, name="zigzag", nbytes=0, what="DEZIGZAG_MAPPING == Figure 14/H.263 (64 entries)"))
         hs.append(dict(TYPES, name="intradc", nbytes=1, what="IntraDc::from_u8 / into_level == Table 15 for all 256 codes (0 and 128 rejected, 255 -> 1024, else 8*code)"))
+    if prop == "C03":
+        for n, w in [("lerp_params", "HalfPel::into_lerp_parameters == (floor(v/2), v odd) for every i16 (contract assumed by the Verus gather unit)"),
+                     ("chroma_round", "HalfPel::average_sum_of_mvs == Table 16 rounding of sum/8 for every i16 sum"),
+                     ("median", "HalfPel::median_of == the middle value, all i16 triples (contract assumed by the Verus mvd_pred unit)"),
+                     ("invert_range", "HalfPel::invert / is_mv_within_range (contract assumed by the Verus mvd_pred unit)"),
+                     ("mv_wrappers", "MotionVector wrappers are component-wise")]:
+            hs.append(dict(TYPES, name=n, nbytes=12, what=w))
     if prop == "C12":
         for n, w in [("lerp_params", "HalfPel::into_lerp_parameters == (floor(v/2), v odd) for every i16"),
                      ("invert_range", "HalfPel::invert == v -/+ 64; is_mv_within_range == (-range <= v < range), all i16"),
@@ -121,11 +128,19 @@ VERUS_NOTE = "trusted: Verus/z3, rustc; extraction tool tools/rsx.py (token-exac
 
 PROPS["C01"] = dict(
     level="proof", engine="verus+kani",
-    verus=[dict(unit="state")],
-    functions=STATE_FNS,
+    verus=[dict(unit="state"), dict(unit="rle"), dict(unit="mvd_pred"), dict(unit="gather")],
+    functions=STATE_FNS + ["h263::decoder::cpu::rle::inverse_rle", "h263::decoder::cpu::mvd_pred::{predict_candidate,halfpel_decode,mv_decode}", "h263::decoder::cpu::gather::{read_sample,lerp,gather_block,gather}", "h263::types::{HalfPel,MotionVector} arithmetic"],
     level_text="deductive proof (Verus) of the real text of decode_next_picture (350 lines, lambda-lifted), the H263State/DecodedPicture methods and the type helpers: every arithmetic operation, index, slice, division, unwrap and callee precondition on the decode path is discharged for ALL header values, picture sizes, macroblock counts, bit strings and decoder histories (representation invariant wf), and the macroblock loop carries a decreases measure (remaining bits), so it terminates; callee kernels and parsers are verified against the same shared contracts in their own units. One open known finding (D12: HalfPel overflow in UMV+PLUSPTYPE mode)",
     level_note=VERUS_NOTE + "; A-READ: the byte source is finite; A-F32-TOTAL: float arithmetic never traps",
     assumptions=["A-READER: reader operations by contract (C14 proves them on the real reader for bounded buffers)", "A-CORE, A-BITFLAGS, A-CAP (see DESIGN.md section 6)", "allocation failure excluded (property statement)"],
+)
+PROPS["C03"] = dict(
+    level="proof", engine="verus+kani",
+    verus=[dict(unit="gather"), dict(unit="mvd_pred"), dict(unit="state")],
+    functions=["h263::decoder::cpu::gather::{read_sample,lerp,gather_block,gather}", "h263::decoder::cpu::mvd_pred::{predict_candidate,halfpel_decode,mv_decode}", "h263::types::{HalfPel,MotionVector}::{average_sum_of_mvs,into_lerp_parameters,median_of,add}", "h263::decoder::state::H263State::decode_next_picture (call-site obligations)"],
+    level_text="deductive proof (Verus), unbounded in picture size, block position and vector: gather_block's contract - every sample of the 8x8 block inside the picture == the H.263 6.1.2 bilinear half-sample prediction with coordinates clamped to the picture edge, and NO sample outside the block is written - holds for all three code paths (8-sample fast copy, clamped copy, interpolation); read_sample/lerp against their specs; gather: chroma vector == sixteenth-position rounding of the four-vector sum, all callee preconditions; mv_decode == predictor + differential wrapped into [-16,15.5] for ALL operands; decode loop: prediction uses view(old).reference, not-coded macroblocks are zero-vector INTER, intra macroblocks store zero candidates. Candidate selection and the loop-free integer kernels are additionally proved exhaustively by Kani (C12)",
+    level_note=VERUS_NOTE + "; HalfPel::{median_of,invert,into_lerp_parameters} use derived comparisons Verus does not model: STUBS in Verus, discharged for every i16 input by Kani harnesses types::{median,invert_range,lerp_params}; the whole-picture composition (which block of which macroblock lands where) is proved only as call-site obligations, and the residual addition belongs to C02",
+    assumptions=["derived-Ord kernels by Kani contract", "composition over macroblocks stated at call sites, not as one whole-picture postcondition"],
 )
 PROPS["C04"] = dict(
     level="proof", engine="verus",
@@ -171,7 +186,8 @@ PROPS["C11"] = dict(
 )
 PROPS["C12"] = dict(
     level="proof",
-    engine="kani",
+    engine="kani+verus",
+    verus=[dict(unit="mvd_pred")],
     functions=["h263::types::HalfPel::{into_lerp_parameters,invert,is_mv_within_range,average_sum_of_mvs,median_of,add}", "h263::decoder::cpu::mvd_pred::{halfpel_decode,mv_decode,predict_candidate}", "h263::parser::macroblock::MVD_TABLE"],
     level_text="complete proofs over finite domains (all i16 / all 64x64 pairs / all i16 triples / all 64 code words) for the loop-free vector kernels and the MVD table; candidate selection is proved per concrete neighbour configuration (1..=4 macroblocks per line, rows 0..2, every column incl. first/last, block index 0..3) with all stored vectors symbolic - BOUNDED in grid width (<= 4 columns), which covers all 3x3 neighbour-availability classes and single-column pictures",
     level_note="trusted: Kani/CBMC; oracles in spec/h263_tables.rs typed from H.263 6.1.1, Table 14, Table 16; candidate selection beyond 4 columns not proved (the function only looks at col == 0, col == last, row == 0)",
